@@ -234,7 +234,7 @@ def check_equivalence(res: Result, proj, thorough: bool, rule: str):
     """G3 (shared with C10/K4, C12/B5, C14/A5): the equivalence test the applicability guards rely on."""
     cls = proj.cls(MOD, "ScoringScheme")
     # ------------------------------------------------------------------ G3
-    gen = proj.method(cls, "__is_equivalent_to_generic")
+    gen = proj.lookup_method(cls, "__is_equivalent_to_generic") or proj.method(cls, "is_equivalent_to")
     res.saw(gen)
     pool = _pool(thorough)
     mism = {3: None, 6: None}
@@ -242,7 +242,7 @@ def check_equivalence(res: Result, proj, thorough: bool, rule: str):
     for stop in (3, 6):
         for p1, p2 in itertools.product(pool, repeat=2):
             count += 1
-            got = _eval_equiv(gen, p1, p2, stop)
+            got = _eval_equiv(proj, p1, p2, stop)
             want = _proportional(p1, p2, stop)
             if got != want and mism[stop] is None:
                 mism[stop] = (p1, p2, got, want)
@@ -325,15 +325,23 @@ def _proportional(p1, p2, stop) -> bool:
     return True
 
 
-def _eval_equiv(gen, p1, p2, stop):
-    env = {"self": Sym("self"), "self._penalty_vectors": [list(p1[0]), list(p1[1])],
-           "self.penalty_vectors": [list(p1[0]), list(p1[1])],
-           gen.param_names[1]: Sym("other"),
-           gen.param_names[1] + ".penalty_vectors": [list(p2[0]), list(p2[1])],
-           gen.param_names[1] + "._penalty_vectors": [list(p2[0]), list(p2[1])],
-           gen.param_names[2]: stop}
-    evl = Evaluator(env, funcs={"isnan": S._isnan})
+_EQ_WORLD = {}
+
+
+def _eval_equiv(proj, p1, p2, stop):
+    """The public equivalence tests on two ScoringScheme instances whose stored vectors are p1 / p2 (set directly: the
+    pool contains tables the validating constructor would refuse; the relation is defined on any pair of tables)."""
+    from .datamodel import World
+    from ..engines.instances import Instance
+    if _EQ_WORLD.get("proj") is not proj:
+        _EQ_WORLD.clear()
+        _EQ_WORLD.update(proj=proj, w=World(proj), cls=proj.cls(MOD, "ScoringScheme"))
+    w, cls = _EQ_WORLD["w"], _EQ_WORLD["cls"]
+    s1, s2 = Instance(w.rt, cls), Instance(w.rt, cls)
+    s1.attrs["_penalty_vectors"] = [list(map(float, p1[0])), list(map(float, p1[1]))]
+    s2.attrs["_penalty_vectors"] = [list(map(float, p2[0])), list(map(float, p2[1]))]
+    name = "is_equivalent_to" if stop == 6 else "is_equivalent_to_on_complete_rankings_only"
     try:
-        return evl.run(gen.body_without_docstring())
+        return w.rt.call_method(s1, name, s2)
     except Unsupported as exc:
-        raise AnalysisError(f"{gen.qualname}: unsupported construct line {getattr(exc.node, 'lineno', '?')}: {exc}")
+        raise AnalysisError(f"ScoringScheme.{name}: unsupported construct line {getattr(exc.node, 'lineno', '?')}: {exc}")
